@@ -411,6 +411,21 @@ def run_case(case):
                 continue
             for clause, detail in check_accepted(pair, L, v1, v2, count, T):
                 violations.append({"clause": clause, "coords": coords, "detail": detail})
+            # re-use of one Chop object on another edge length must equal a fresh calculation (no stale results)
+            if execs % 7 == 0:
+                L2 = L * 1.37
+                try:
+                    ch = Chop(**kw)
+                    ch.calculate(L)
+                    again = ch.calculate(L2)
+                except Exception:
+                    again = "raised"
+                try:
+                    fresh = Chop(**kw).calculate(L2)
+                except Exception:
+                    fresh = "raised"
+                if again != fresh and not (again != "raised" and fresh != "raised" and int(again[0]) == int(fresh[0]) and math.isclose(float(again[1]), float(fresh[1]), rel_tol=1e-12)):
+                    violations.append({"clause": "chop-object-reuse-differs", "coords": coords, "detail": f"second calculate() on length {L2}: {again}, fresh chop: {fresh}"})
             # inversion: same count, reciprocal expansion (count compared away from exact-integer solutions)
             try:
                 ch = Chop(**kw)
